@@ -136,6 +136,7 @@ type Explorer struct {
 	Want      string
 	OutGuard  bool // treat bytes on fd 1/2 as violation (C17)
 	NoState   bool // skip CheckState (when another job already does it)
+	Quiet     bool // no samples
 	SampleN   int
 	recs      []stateRec
 	seen      map[[16]byte]int32
@@ -243,6 +244,15 @@ func (e *Explorer) found(v *Viol, path []Op, last *Op) *Found {
 	f := &Found{V: v, Path: path, Last: last}
 	f.Calls = describePath(e.Sys, path, last)
 	return f
+}
+
+// AllPaths returns the shortest path of every state found (BFS order).
+func (e *Explorer) AllPaths() [][]Op {
+	ps := make([][]Op, len(e.recs))
+	for i := range e.recs {
+		ps[i] = e.pathOf(int32(i))
+	}
+	return ps
 }
 
 func (e *Explorer) wants(v *Viol) bool {
